@@ -1,7 +1,7 @@
 """False-alarm self-test: behaviour-preserving changes (benign/<id>/patch.diff, written by independent sub-agents that were asked for
 CORRECT refactorings of the code behind a property) must leave EVERY check silent.
 
-usage: selftest/benign.py [name-substring ...]
+usage: selftest/benign.py [--own] [--record] [name-substring ...]     (--own: only the check of the patch's own property)
 """
 import glob
 import json
@@ -32,6 +32,8 @@ def main():
                                stdout=subprocess.PIPE, stderr=subprocess.STDOUT)
             res = ["suite:%s" % ("pass" if r.returncode == 0 else "FAIL")]
             for prop in sorted(REGISTRY):
+                if "--own" in sys.argv and prop != name.split("-")[0]:
+                    continue
                 rc, out = run_check(prop, d, ["--tier", "quick"])
                 if rc == 0:
                     res.append("%s:quiet" % prop)
